@@ -95,7 +95,7 @@ func vkeys(n int, lens []int, pfx string) []string {
 }
 
 func vstor() *stor.Stor {
-	st := stor.HeapStor(8192)
+	st := stor.HeapStor(1024)
 	st.Alloc(1) // offset 0 means "no node" in the merge state; real stores have a header there
 	return st
 }
@@ -460,7 +460,11 @@ func vmergeScenario(nb int, hists []vhist, maxn0 int, maxc []int, pfx string) {
 		}
 		return
 	}
-	probe := pfx + rt.Str("probe", 1+rt.Pick("plen", 2))
+	maxplen := 2
+	if !rt.Thorough() {
+		maxplen = len(cfg.lens) // quick: no 2-byte probe when every key has 1 byte
+	}
+	probe := pfx + rt.Str("probe", 1+rt.Pick("plen", maxplen))
 	for s := nb; s >= 0; s-- {
 		if s == nb || rt.Thorough() {
 			vprobe(vpre(s, nb), trees[s], vstage(es, s), probe)
@@ -479,7 +483,7 @@ func vpre(s, nb int) string {
 // tree) receives a batch of inserts/updates/deletes; the result is the model map, the old tree
 // still is the old map, all nodes are ordered and within the split count.
 //
-//symgo:harness prop=C10 tier=quick shards=8 timeout=400 ttimeout=3000 bounds=initial_tree_of_0..3_keys_(thorough_0..6);one_batch_of_1..2_changes_(thorough_1..3)_add/update/delete_at_every_position;quick_configurations_(split,key_lengths,initial_tree_by):(2,all_1,Builder)|(3,alternating_1/2,Builder)|(4,all_1,merge_into_empty)|(2,alternating_1/2,merge_into_empty);thorough:split_2|3|4_x_key_lengths_all_1|1,2|2,1|all_2_x_Builder|merge;symbolic_key_bytes_in_an_assumed_ordering_chain;40-bit_offsets;symbolic_probe_1..2_bytes_(old_tree_probed_in_thorough_only,_iterated_always) outside=trees_deeper_than_8_levels;keys_longer_than_2_bytes_(see_VerifC10MergePrefix);more_than_one_batch_(see_VerifC10Merge2)
+//symgo:harness prop=C10 tier=quick shards=8 timeout=400 ttimeout=3000 bounds=initial_tree_of_0..3_keys_(thorough_0..6);one_batch_of_1..2_changes_(thorough_1..3)_add/update/delete_at_every_position;quick_configurations_(split,key_lengths,initial_tree_by):(2,all_1,Builder)|(3,alternating_1/2,Builder)|(4,all_1,merge_into_empty)|(2,alternating_1/2,merge_into_empty);thorough:split_2|3|4_x_key_lengths_all_1|1,2|2,1|all_2_x_Builder|merge;symbolic_key_bytes_in_an_assumed_ordering_chain;40-bit_offsets;symbolic_probe_1..2_bytes_(quick:_1_byte_when_all_keys_have_1_byte;_old_tree_probed_in_thorough_only,_iterated_always) outside=trees_deeper_than_8_levels;keys_longer_than_2_bytes_(see_VerifC10MergePrefix);more_than_one_batch_(see_VerifC10Merge2)
 func VerifC10Merge() {
 	if rt.Thorough() {
 		vmergeScenario(1, vhist1, 6, []int{3}, "")
